@@ -100,3 +100,32 @@ pub fn cases(rng: &mut Rng, count: usize, tier: &str) -> Vec<Case> {
     }
     out
 }
+
+/// C01r: as_mermaid / as_graphviz against the terms in iteration order
+pub fn obs_c01r(o: &Ontology) -> V {
+    let ts: Vec<V> = o
+        .hpos()
+        .map(|t| V::T(vec![n(t.id().as_u32()), crate::v::bytes(t.name().as_bytes()), ln(&gids(t.children_ids()))]))
+        .collect();
+    V::T(vec![V::L(ts), crate::v::bytes(o.as_mermaid().as_bytes()), crate::v::bytes(o.as_graphviz("dot").as_bytes())])
+}
+
+pub fn cases_r(rng: &mut Rng, count: usize, tier: &str) -> Vec<Case> {
+    let mut out = vec![];
+    while out.len() < count {
+        let mut o = Opts::default();
+        o.max_terms = if tier == "thorough" && rng.chance(1, 10) { 40 } else { 12 };
+        o.max_records = 1;
+        o.dense = rng.chance(1, 2);
+        let mut tags = vec![];
+        let (w, f) = world::gen_world_sub_p(rng, o, &mut tags, 3);
+        let b = w.build();
+        let obs = world::on_onto(&b, obs_c01r);
+        tags.extend(tags_for(&f));
+        if f.terms.len() >= 3 {
+            tags.push("nt");
+        }
+        out.push(Case { input: world::winput(&w, f.n_records()), obs, tags });
+    }
+    out
+}
